@@ -122,3 +122,86 @@ Theorem C06_skip_named : forall l u i,
   (flat_map (printed_named u) (combine (seq i (length l)) l), negb (existsb (fun p => is_skip (snd p)) l)).
 Proof. exact Proofs.named_calls_spec. Qed.
 Print Assumptions C06_skip_named.
+
+(* ------------------------------------------------------------------ growth round: end to end *)
+
+(** every arrangement of plain / skip / ignore / formatted fields (tuple or named, raw names or not):
+    the calls derive_more emits are the hand-written std reference's calls *)
+Theorem C06_attrs_reference : forall e, std_of_body (generate_body_now e) = reference_body e.
+Proof. exact Proofs.attrs_reference. Qed.
+Print Assumptions C06_attrs_reference.
+
+(** "replaces only that field's value": a field's attribute decides that field's entry and nothing else *)
+Theorem C06_field_entry_local : forall l1 a l2,
+  fst (unnamed_calls 0 (l1 ++ a :: l2)) =
+  fst (unnamed_calls 0 l1) ++ printed (length l1, a) ++ fst (unnamed_calls (S (length l1)) l2).
+Proof. exact Proofs.unnamed_calls_local. Qed.
+Print Assumptions C06_field_entry_local.
+
+(** ... and the formatted literal is printed by fresh formatters: the outer configuration never reaches it *)
+Theorem C06_field_format_fresh_formatter : forall ps tail c c' w,
+  fmt_val (VArgs ps tail) c w = fmt_val (VArgs ps tail) c' w.
+Proof. exact Proofs.args_ignore_outer. Qed.
+Print Assumptions C06_field_format_fresh_formatter.
+
+(** unit, [S()], [S {}]: the bare name under every configuration *)
+Theorem C06_empty_shapes : forall e fv av c w,
+  (e_fields e = FUnit \/ e_fields e = FUnnamed [] \/ e_fields e = FNamed []) ->
+  fmt_val (body_val fv av (generate_body_now e)) c w = (write_str w (iname (e_ident e)), true).
+Proof. exact Proofs.empty_shapes. Qed.
+Print Assumptions C06_empty_shapes.
+
+(** the std side of a program is the derive_more side with core's tuple builder at every node, for EVERY
+    configuration and writer (std's derive where there is no attribute, the reference otherwise) *)
+Theorem C06_std_side_is_core_twin : forall d c w,
+  fmt_val (std_val d) c w = fmt_val (to_std (dm_val d)) c w.
+Proof. exact Proofs.std_val_is_to_std. Qed.
+Print Assumptions C06_std_side_is_core_twin.
+
+(** THE PROPERTY end to end: the known-finding class is the ONLY divergence *)
+Theorem C06_end_to_end : forall d c,
+  known_class d c = false -> forall w, fmt_val (dm_val d) c w = fmt_val (std_val d) c w.
+Proof. exact Proofs.end_to_end. Qed.
+Print Assumptions C06_end_to_end.
+
+Theorem C06_attr_free_compact : forall d c,
+  attr_free d = true -> alternate c = false -> forall w, fmt_val (dm_val d) c w = fmt_val (std_val d) c w.
+Proof. exact Proofs.attr_free_compact. Qed.
+Print Assumptions C06_attr_free_compact.
+
+Theorem C06_attr_free_pretty : forall d,
+  attr_free d = true -> forall w, fmt_val (dm_val d) pretty_cfg w = fmt_val (std_val d) pretty_cfg w.
+Proof. exact Proofs.attr_free_pretty. Qed.
+Print Assumptions C06_attr_free_pretty.
+
+(** the class is inhabited (the witness replayed on the real macro is the known finding) ... *)
+Theorem C06_known_class_witness :
+  attr_free witness_program = true /\ known_class witness_program pretty_hex_cfg = true /\
+  render (dm_val witness_program) pretty_hex_cfg <> render (std_val witness_program) pretty_hex_cfg.
+Proof. exact Proofs.known_class_witness. Qed.
+Print Assumptions C06_known_class_witness.
+
+(** ... by every configuration it names *)
+Theorem C06_known_class_every_cfg : forall c,
+  cfg_ok_for_dm_tuple c = false ->
+  let d := DAdt (mkexp (mkid false [68]) (FUnnamed [ANone])) [DLeaf cfg_probe_leaf] [] in
+  attr_free d = true /\ known_class d c = true /\ render (dm_val d) c <> render (std_val d) c.
+Proof. exact Proofs.known_class_every_cfg. Qed.
+Print Assumptions C06_known_class_every_cfg.
+
+(** generate_bounds: exactly the generic types of plainly printed fields (Debug) and of the fields a
+    field-level format refers to (their placeholder's trait); skipped fields impose nothing *)
+Theorem C06_bounds_exact : forall generic refs e j tr,
+  In (j, tr) (generate_bounds generic refs e) <->
+  generic j = true /\
+  ((tr = TrDebug /\ nth_error (field_attrs (e_fields e)) j = Some ANone) \/
+   (exists i k, nth_error (field_attrs (e_fields e)) i = Some (AFmt k) /\ In (j, tr) (refs i k))).
+Proof. exact Proofs.generate_bounds_exact. Qed.
+Print Assumptions C06_bounds_exact.
+
+Theorem C06_bounds_skip_free : forall generic refs e j tr,
+  (forall i k, nth_error (field_attrs (e_fields e)) i <> Some (AFmt k)) ->
+  In (j, tr) (generate_bounds generic refs e) ->
+  tr = TrDebug /\ generic j = true /\ nth_error (field_attrs (e_fields e)) j = Some ANone.
+Proof. exact Proofs.generate_bounds_skip_free. Qed.
+Print Assumptions C06_bounds_skip_free.
